@@ -3149,6 +3149,7 @@ func (h *RequestHeader) parseHeaders(buf []byte, blockEnd int) (int, error) {
 	contentLengthSeen := false
 	transferEncodingSeen := false
 	hostSeen := false
+	closeAfterRequest := false
 
 	var s headerScanner
 	s.b = buf
@@ -3277,6 +3278,11 @@ func (h *RequestHeader) parseHeaders(buf []byte, blockEnd int) (int, error) {
 				if isChunked {
 					h.contentLength = -1
 					h.h = setArgBytes(h.h, strTransferEncoding, strChunked, argsHasValue)
+				} else {
+					// A lone identity is tolerated, but a Transfer-Encoding whose
+					// final coding isn't chunked makes the framing ambiguous, so
+					// the connection must not be reused (RFC 9112 section 6.3).
+					closeAfterRequest = true
 				}
 				continue
 			}
@@ -3299,6 +3305,9 @@ func (h *RequestHeader) parseHeaders(buf []byte, blockEnd int) (int, error) {
 
 	if h.contentLength < 0 {
 		h.contentLengthBytes = h.contentLengthBytes[:0]
+	}
+	if closeAfterRequest {
+		h.connectionClose = true
 	}
 	if h.noHTTP11 && !h.connectionClose {
 		// close connection for non-http/1.1 request unless 'Connection: keep-alive' is set.
